@@ -40,7 +40,7 @@ impl Scenario for C35 {
             real: vec!["AsyncSecureChannel::connect_no_retry / send", "Request::send (oneshot + mpsc with send_timeout)", "client TcpTransport::poll / poll_inner / close", "TransportState::wait_for_outgoing_message / next_timeout / process_chunk / merge_chunks", "client SendBuffer", "TcpCodec, Chunker, SecureChannel (client role)"],
             stubbed: vec!["TCP socket (verif::net connector seam, in-memory duplex)", "server (scripted raw peer built from the real server-role SecureChannel / Chunker)"],
             assumptions: vec!["security policy None (secured client channels are exercised in C14's client half)", "the scripted server sends chunks of one message contiguously (sequence numbers in wire order)"],
-            fault_kinds: vec!["response_after_deadline", "no_response", "duplicate_response", "unknown_request_id", "abort_chunk", "undecodable_response", "chunks_reordered", "chunk_dropped", "slow_chunks_across_deadline", "server_close", "client_close", "inflight_limit_reached"],
+            fault_kinds: vec!["response_after_deadline", "no_response", "duplicate_response", "unknown_request_id", "abort_chunk", "undecodable_response", "chunks_reordered", "chunk_dropped", "slow_chunks_across_deadline", "server_close", "client_close", "inflight_limit_reached", "peer_stall"],
         }
     }
     fn runs(&self, tier: Tier) -> u64 {
@@ -70,11 +70,24 @@ impl Scenario for C35 {
             };
             steps.push(json!({"op": "submit", "at_ms": t, "timeout_ms": timeout, "kind": kind, "size": size, "delay_ms": delay, "gap_ms": if kind == "slow" { rng.urange(5, 80) } else { 0 }}));
         }
+        let mut pipe = 1usize << 22;
+        if rng.chance(0.15) {
+            // the peer stops reading (and answering) for a while or for good; a small pipe makes
+            // the client's writes block
+            pipe = *rng.pick(&[4096usize, 16384, 65536]);
+            let at = rng.below(t + 50);
+            steps.push(json!({"op": "stall", "at_ms": at, "dur_ms": *rng.pick(&[50u64, 300, 100_000])}));
+            for s in steps.iter_mut() {
+                if s["op"] == "submit" && rng.chance(0.7) {
+                    s["req_size"] = json!(*rng.pick(&[2000u64, 9000, 30_000]));
+                }
+            }
+        }
         if rng.chance(0.3) {
             let at = rng.below(t + 300);
             steps.push(json!({"op": *rng.pick(&["close_server", "close_server", "close_client"]), "at_ms": at}));
         }
-        json!({"max_inflight": max_inflight, "max_pending": max_pending, "tseed": rng.next_u64() >> 12, "steps": steps})
+        json!({"max_inflight": max_inflight, "max_pending": max_pending, "pipe": pipe, "tseed": rng.next_u64() >> 12, "steps": steps})
     }
     fn exec(&self, plan: &Value, ctx: &mut Ctx) {
         let rt = l2::runtime(plan["tseed"].as_u64().unwrap_or(1));
@@ -125,18 +138,20 @@ enum Send {
     Garbage { rid: u32, idx: usize },
 }
 
-fn read_request(handle_hdr: RequestHeader, idx: usize) -> ReadRequest {
-    ReadRequest {
-        request_header: handle_hdr,
-        max_age: 0.0,
-        timestamps_to_return: TimestampsToReturn::Neither,
-        nodes_to_read: Some(vec![ReadValueId {
-            node_id: NodeId::new(1, idx as u32),
-            attribute_id: AttributeId::Value as u32,
-            index_range: UAString::null(),
-            data_encoding: QualifiedName::null(),
-        }]),
+fn read_request(handle_hdr: RequestHeader, idx: usize, filler: usize) -> ReadRequest {
+    let mut nodes = vec![ReadValueId {
+        node_id: NodeId::new(1, idx as u32),
+        attribute_id: AttributeId::Value as u32,
+        index_range: UAString::null(),
+        data_encoding: QualifiedName::null(),
+    }];
+    let mut left = filler;
+    while left > 0 {
+        let n = left.min(3000);
+        nodes.push(ReadValueId { node_id: NodeId::new(1, "f".repeat(n)), attribute_id: AttributeId::Value as u32, index_range: UAString::null(), data_encoding: QualifiedName::null() });
+        left -= n;
     }
+    ReadRequest { request_header: handle_hdr, max_age: 0.0, timestamps_to_return: TimestampsToReturn::Neither, nodes_to_read: Some(nodes) }
 }
 
 fn read_response(handle: u32, tag: u32, size: usize) -> SupportedMessage {
@@ -154,7 +169,7 @@ fn read_response(handle: u32, tag: u32, size: usize) -> SupportedMessage {
 
 async fn run(plan: &Value, ctx: &mut Ctx) {
     crate::hooks::follow_tokio();
-    let acceptor = rawsrv::install_connector(1 << 22);
+    let acceptor = rawsrv::install_connector(plan["pipe"].as_u64().unwrap_or(1 << 22) as usize);
     let max_inflight = plan["max_inflight"].as_u64().unwrap_or(8) as usize;
     let max_pending = plan["max_pending"].as_u64().unwrap_or(50) as usize;
     let channel = Arc::new(AsyncSecureChannel::new(
@@ -214,6 +229,7 @@ async fn run(plan: &Value, ctx: &mut Ctx) {
     let mut tasks = Vec::new();
     let mut end = t0 + Duration::from_millis(100);
     let mut close_server_at: Option<Instant> = None;
+    let mut stall: Option<(Instant, Instant)> = None;
     let mut behaviours: BTreeMap<usize, Value> = BTreeMap::new();
     for (i, s) in steps.iter().enumerate() {
         let at = t0 + Duration::from_millis(s["at_ms"].as_u64().unwrap_or(0));
@@ -222,12 +238,13 @@ async fn run(plan: &Value, ctx: &mut Ctx) {
                 let timeout = Duration::from_millis(s["timeout_ms"].as_u64().unwrap_or(100));
                 end = end.max(at + timeout + Duration::from_millis(s["delay_ms"].as_u64().unwrap_or(0) + 6 * s["gap_ms"].as_u64().unwrap_or(0)));
                 behaviours.insert(i, s.clone());
+                let filler = s["req_size"].as_u64().unwrap_or(0) as usize;
                 let ch = channel.clone();
                 let sh = shared.clone();
                 tasks.push(tokio::spawn(async move {
                     tokio::time::sleep_until(at).await;
                     sh.lock().unwrap().submit_at.insert(i, Instant::now());
-                    let req = read_request(wire::request_header(1000 + i as u32), i);
+                    let req = read_request(wire::request_header(1000 + i as u32), i, filler);
                     let r = ch.send(req, timeout).await;
                     let result = match r {
                         Ok(SupportedMessage::ReadResponse(rr)) => match rr.results.as_ref().and_then(|v| v.first()).and_then(|d| d.value.clone()) {
@@ -241,6 +258,7 @@ async fn run(plan: &Value, ctx: &mut Ctx) {
                 }));
             }
             "close_server" => close_server_at = Some(at),
+            "stall" => stall = Some((at, at + Duration::from_millis(s["dur_ms"].as_u64().unwrap_or(100)))),
             "close_client" => {
                 let ch = channel.clone();
                 tasks.push(tokio::spawn(async move {
@@ -280,6 +298,14 @@ async fn run(plan: &Value, ctx: &mut Ctx) {
         if !srv.is_open() {
             tokio::time::sleep_until(end).await;
             break;
+        }
+        if let Some((from, to)) = stall {
+            if now >= from && now < to {
+                // the peer neither reads nor writes
+                ctx.fault("peer_stall");
+                tokio::time::sleep_until(to.min(end)).await;
+                continue;
+            }
         }
         // due sends, one message at a time
         let due = sendq.keys().next().cloned().filter(|k| k.0 <= now);
@@ -363,6 +389,11 @@ async fn run(plan: &Value, ctx: &mut Ctx) {
         if let Some(at) = close_server_at {
             if at > now {
                 wake = wake.min(at);
+            }
+        }
+        if let Some((from, _)) = stall {
+            if from > now {
+                wake = wake.min(from);
             }
         }
         let wait = if wake > now { wake - now } else { Duration::from_micros(0) };
